@@ -10,6 +10,7 @@ import (
 	"verifharness/c02"
 	"verifharness/c05"
 	"verifharness/c06"
+	"verifharness/c07"
 	"verifharness/c09"
 	"verifharness/c11"
 	"verifharness/c15"
@@ -26,6 +27,7 @@ var runners = map[string]func(*wk.Job, *wk.Worker) error{
 	"c02": c02.Run,
 	"c05": c05.Run,
 	"c06": c06.Run,
+	"c07": c07.Run,
 	"c09": c09.Run,
 	"c11": c11.Run,
 	"c15": c15.Run,
